@@ -601,6 +601,9 @@ func (pr *Program) UsedPackages() []string {
 		if t.K == "buf" {
 			set["buf"] = true
 		}
+		if t.K == "dict" {
+			set["dict"] = true
+		}
 		for _, e := range t.E {
 			noteType(e)
 		}
